@@ -43,7 +43,12 @@ def concretise(prof, rng, kind, val):
         return ('ka', key64(val), prof.keep_alive(val))
     if kind == 'pl':
         tid = val
-        x, y, z, yaw, pitch = (tid % 97) + 1, (tid % 31) + 64, (tid % 89) + 3, (tid * 7) % 360, (tid * 3) % 90
+        # angles also outside [0, 360): the acknowledgement before protocol 107 echoes what was received, unnormalised
+        x, y, z = (tid % 97) + 1, (tid % 31) + 64, (tid % 89) + 3
+        yaw = [(tid * 7) % 360, -90, 725, 360][tid % 4]
+        pitch = [(tid * 3) % 90, -30, -89, 90][(tid // 4) % 4]
+        if tid % 11 == 3:
+            x, z = -x, -z
         key = [tid] if prof.ge(107) else [x, y, z, yaw, pitch]
         return ('pl', key, prof.pos_look(float(x), float(y), float(z), float(yaw), float(pitch), 0, tid))
     if kind == 'unk':
